@@ -446,3 +446,35 @@ class no_div_safety:
 
     def __exit__(self, *a):
         return False
+
+
+class cut_loops:
+    """no-op in concrete mode: the real loops run"""
+    def __init__(self, path, invs):
+        self.path = path
+
+    def __enter__(self):
+        return get(self.path)
+
+    def __exit__(self, *a):
+        return False
+
+
+class Invariant:
+    pass
+
+
+def seq_len(s):
+    return len(s)
+
+
+def seq_get(s, p):
+    return s[int(p)]
+
+
+def skolem(n, name='p'):
+    return idx(n, '__sk_' + name)
+
+
+class PredInvariant(Invariant):
+    pass
